@@ -19,6 +19,7 @@ impl Compiler {
         mutable: bool,
         is_var: bool,
     ) -> Result<(), JsError> {
+        self.check_depth()?;
         match pattern {
             Pattern::Identifier(id) => {
                 let name_idx = self.builder.add_string(id.name.cheap_clone())?;
